@@ -237,6 +237,24 @@ static int runTbRegion(uint64_t seed, long long nops) {
         if (c0 != c1) viol("tablebase-region-modified-by-hash-traffic", std::string(crumb) + " checksum changed");
         for (auto& pr : probes) { int sc = 0; if (!tt.probeDTM(pr.first, 0, sc) || sc != pr.second) { viol("tablebase-probe-changed", std::string(crumb) + " " + TextIO::toFEN(pr.first)); break; } }
         stat["tbregion_rounds"]++; stat["tbregion_ops"] += nops; stat["tbregion_dtm_reprobes"] += (long long)probes.size();
+        // Searches from roots the table cannot serve (the search calls updateTB at every timed root): the table is kept for a few of
+        // them and must stay protected meanwhile, then it is dropped. At every step it either answers exactly as before or not at all.
+        if (round == 2) {
+            Position other = TextIO::readFEN(TextIO::startPosFEN);
+            for (int k = 0; k < 7; k++) {
+                RelaxedShared<S64> nl2(-1);
+                tt.updateTB(other, nl2);
+                for (long long i = 0; i < nops / 8; i++) { Move m(Square(r.below(64)), Square(r.below(64)), 0); m.setScore(r.below(2000) - 1000); tt.insert(r.next(), m, 1 + r.below(3), r.below(30), r.below(60), r.below(500) - 250, false); }
+                long long answered = 0;
+                for (auto& pr : probes) { int sc = 0; if (tt.probeDTM(pr.first, 0, sc)) { answered++; if (sc != pr.second) { viol("tablebase-answers-wrong-after-unrelated-roots", std::string(crumb) + " after " + std::to_string(k + 1) + " unrelated updateTB calls: " + TextIO::toFEN(pr.first) + " was " + std::to_string(pr.second) + " now " + std::to_string(sc)); break; } } }
+                stat[answered ? "tbregion_kept_through_unrelated_root" : "tbregion_dropped_after_unrelated_roots"]++;
+            }
+            // and back to the material of the table: whatever happened, the answers are exact again
+            RelaxedShared<S64> nl3(-1);
+            if (!tt.updateTB(root, nl3)) viol("updateTB-failed", std::string(crumb) + " (return to the table's material)");
+            for (auto& pr : probes) { int sc = 0; if (!tt.probeDTM(pr.first, 0, sc) || sc != pr.second) { viol("tablebase-wrong-after-return-to-its-material", std::string(crumb) + " " + TextIO::toFEN(pr.first)); break; } }
+            stat["tbregion_returns_to_material"]++;
+        }
         if (round == 0) tt.clear(); else tt.reSize((round + 1) * 8 * 65536);
         // After clear / reSize the table is either gone (probeDTM: not found) or, if the table still answers, its bytes must still be
         // protected from ordinary stores: same answers before and after more hash traffic.
